@@ -247,9 +247,9 @@ func buildV3() *V3 {
 // V3Case is a raw v3 vector by code indices (spec order).  Temporal/environmental indices use
 // 0 for X.
 type V3Case struct {
-	Ver                                      int // 0 = 3.0, 1 = 3.1
-	AV, AC, PR, UI, S, C, I, A               int
-	E, RL, RC                                int
+	Ver                                            int // 0 = 3.0, 1 = 3.1
+	AV, AC, PR, UI, S, C, I, A                     int
+	E, RL, RC                                      int
 	CR, IR, AR, MAV, MAC, MPR, MUI, MS, MC, MI, MA int
 }
 
